@@ -3,8 +3,8 @@ import AioslskVerif.Proofs.Naming
 # C09 — peer-chosen names never escape the download directory or clobber a file
 
 Property theorems only (helpers: `Proofs/Naming.lean`, model: `Model/Naming.lean`).
-The model is the code *after* fixes/C09-dot-components.patch, C09-empty-filename.patch and
-C09-claim-download-path.patch. `chain fs ss remote` is `chain_strategies` run by
+The model is the code *after* fixes/C09-dot-components.patch, C09-empty-filename.patch,
+C09-claim-download-path.patch, C09-dangling-symlink.patch and C09-unclaimed-path-kept.patch. `chain fs ss remote` is `chain_strategies` run by
 `calculate_download_path` for the strategy list `ss` (any list over the three shipped strategies,
 any order, repetitions allowed, the empty list included), any remote path (any list of characters)
 and any content `fs` of the download directory. `.error _` means the code raises: no path is chosen.
@@ -12,21 +12,27 @@ and any content `fs` of the download directory. `.error _` means the code raises
 namespace AioslskVerif.C09
 open AioslskVerif.Naming
 
-/-- **Inside.** Whenever a path is chosen, every component of the directory part and the file name
-are regular names (not empty, not `.`, not `..`, no `/` or `\`), so the lexical walk from the
-download directory over `dir/…/name` never leaves it and ends exactly `|dir| + 1 ≥ 1` levels below:
-strictly inside. -/
+/-- **Inside — on the final joined path.** Whenever a path is chosen, every component of the
+directory part and the file name are regular names (not empty, not `.`, not `..`, no `/` or `\`);
+the string the code builds from them with `os.path.join` and hands to the operating system
+(`finalPath`: no component is absolute, so the download directory is never thrown away) is
+`/c₁/…/cₖ/name` below the download directory, and resolving that string the way the kernel does
+(split at `/`; `''` and `.` stay, `..` goes up) never leaves the download directory and ends exactly at
+`dir ++ [name]`, i.e. `|dir| + 1 ≥ 1` levels below it: strictly inside. The model applies no
+normalisation between the filter and the join because the code applies none. -/
 theorem C09_inside (fs : Fs) (ss : List Strategy) (remote : List Char) (d : Path) (n : Name)
     (h : chain fs ss remote = .ok (d, n)) :
-    (∀ c ∈ d, Regular c) ∧ walk (d ++ [n]) 0 = some (d.length + 1) := by
+    (∀ c ∈ d, Regular c) ∧
+    ∃ s, finalPath d n = some s ∧ resolve s = some (d ++ [n]) ∧ walk (d ++ [n]) 0 = some (d.length + 1) := by
   obtain ⟨_, hd, hn⟩ := chain_ok fs ss remote d n h
-  refine ⟨hd, ?_⟩
-  have := walk_regular (d ++ [n]) 0 (by
+  have hall : ∀ c ∈ d ++ [n], Regular c := by
     intro c hc
     rcases List.mem_append.mp hc with hc | hc
     · exact hd c hc
-    · simp only [List.mem_singleton] at hc; subst hc; exact hn)
-  simpa using this
+    · simp only [List.mem_singleton] at hc; subst hc; exact hn
+  obtain ⟨hj, hr⟩ := finalPath_regular (d ++ [n]) hall
+  refine ⟨hd, _, hj, hr, ?_⟩
+  simpa using walk_regular (d ++ [n]) 0 hall
 
 /-- **Regular file name.** The chosen file name is never `''`, `.` or `..` and contains no
 separator — for every chain, every remote path, every directory content. -/
@@ -54,19 +60,102 @@ theorem C09_numbered_not_listed (stem ext : Name) (listing : List Name) :
     numbered stem ext (nextIndex (listing.filterMap (matchIndex stem ext))) ∉ listing :=
   numbered_fresh stem ext listing
 
-/-- **Distinct while active.** Downloads start (choose a path and claim it in one step —
-transfer/manager.py:678-685 has no suspension point between the two) and finish in any order, any
-number of them, with any remote paths, over any initial directory content; for a chain ending in
-the number-duplicate strategy no two downloads that are active at the same time hold the same
-local path, and each active download's file exists under a regular name. -/
+/-- **Distinct while holding a path.** Download tasks start (choose a path and claim it in one step
+— transfer/manager.py:699-706 has no suspension point between the two), end complete or cut off, and
+are started again (a cut-off download resumes on the path it holds, a completed one forgets its path
+and chooses anew), in any order, any number of them, with any remote paths, with an OSError injected
+into any claiming step, over any initial directory content. For a chain ending in the
+number-duplicate strategy no two downloads that hold a path at the same time hold the same one —
+running or not — and each held path is regular and exists in the directory (it was claimed). -/
+theorem C09_distinct_holders (fs0 : Fs) (ss : List Strategy) (ops : List Op)
+    (hl : ss.getLast? = some .number) :
+    (run ss { fs := fs0, dls := [] } ops).dls.Pairwise
+        (fun a b => (a.dir, a.name) ≠ (b.dir, b.name)) ∧
+    ∀ a ∈ (run ss { fs := fs0, dls := [] } ops).dls,
+      Regular a.name ∧ (∀ c ∈ a.dir, Regular c) ∧
+      (run ss { fs := fs0, dls := [] } ops).fs.has a.dir a.name = true := by
+  have h := run_inv ss hl ops { fs := fs0, dls := [] } ⟨by simp, by simp⟩
+  exact ⟨h.2, h.1⟩
+
+/-- **Distinct while active** (the property's wording): in particular the downloads whose task is
+running at the same time never share a local path. -/
 theorem C09_distinct_concurrent (fs0 : Fs) (ss : List Strategy) (ops : List Op)
     (hl : ss.getLast? = some .number) :
-    (run ss { fs := fs0, active := [] } ops).active.Pairwise
-        (fun a b => (a.dir, a.name) ≠ (b.dir, b.name)) ∧
-    ∀ a ∈ (run ss { fs := fs0, active := [] } ops).active,
-      Regular a.name ∧ (run ss { fs := fs0, active := [] } ops).fs.has a.dir a.name = true := by
-  have h := run_inv ss hl ops { fs := fs0, active := [] } ⟨by simp, by simp⟩
-  exact ⟨h.2, h.1⟩
+    (run ss { fs := fs0, dls := [] } ops).active.Pairwise
+        (fun a b => (a.dir, a.name) ≠ (b.dir, b.name)) :=
+  (C09_distinct_holders fs0 ss ops hl).1.sublist List.filter_sublist
+
+/-- **The path used is the path that was checked.** When a starting download is given a path
+(`chosen d n`), `(d, n)` is exactly what `chain_strategies` returned on the directory content of that
+moment, it did not exist then, it exists afterwards, and no entry that existed before is gone. -/
+theorem C09_claimed_is_checked (ss : List Strategy) (hl : ss.getLast? = some .number) (fs : Fs)
+    (rest : List Dl) (id : Nat) (remote : List Char) (fault : Fault) (d : Path) (n : Name) (s' : Sys)
+    (h : chooseAndClaim ss fs rest id remote fault = (s', .chosen d n)) :
+    chain fs ss remote = .ok (d, n) ∧ fs.pathExists d n = false ∧ s'.fs.has d n = true ∧
+    (∀ e ∈ fs, e ∈ s'.fs) ∧ s'.dls = { id := id, dir := d, name := n, status := .running } :: rest := by
+  unfold chooseAndClaim at h
+  split at h
+  · cases h
+  · rename_i d' n' hch
+    split at h
+    · cases h
+    · rename_i fs' heq
+      cases h
+      obtain ⟨haux, _, _⟩ := chain_ok fs ss remote d n hch
+      have hfresh := chainAux_fresh fs remote ss _ _ inv_init hl haux
+      have hs := claim_spec fs d n fault (by rw [heq])
+      have hm := claim_mono fs d n fault
+      rw [heq] at hs hm
+      exact ⟨hch, hfresh, hs, hm, rfl⟩
+
+/-- **A failed claim leaves nothing behind.** When the chain raises or the claiming step fails with an
+OSError (injected, a file in the way of the directory, a name longer than `NAME_MAX`), the download
+holds no path afterwards (so nothing is "resumed" later on a path it never owned), and the downloads
+that held a path hold the same one as before. -/
+theorem C09_failed_claim_holds_nothing (ss : List Strategy) (fs : Fs) (rest : List Dl) (id : Nat)
+    (remote : List Char) (fault : Fault) (s' : Sys) (o : Outcome)
+    (h : chooseAndClaim ss fs rest id remote fault = (s', o))
+    (ho : ∀ d n, o ≠ .chosen d n) : s'.dls = rest := by
+  unfold chooseAndClaim at h
+  split at h
+  · cases h; rfl
+  · split at h
+    · cases h; rfl
+    · cases h; exact absurd rfl (ho _ _)
+
+/-- names longer than `NAME_MAX` are never claimed: the claim fails, whatever the fault -/
+theorem C09_too_long_not_claimed (fs : Fs) (d : Path) (n : Name) (fault : Fault)
+    (hfree : fs.has d n = false) (hl : tooLong n = true) : (claim fs d n fault).2 = false := by
+  cases hc : (claim fs d n fault).2 with
+  | false => rfl
+  | true =>
+    exfalso
+    unfold claim at hc
+    by_cases hmk : fault = .makedirs
+    · simp [hmk] at hc
+    · simp only [hmk, if_false] at hc
+      rcases hm : mkdirs fs [] d with ⟨fs', b⟩
+      rw [hm] at hc
+      cases b with
+      | false => simp at hc
+      | true =>
+        simp only at hc
+        by_cases hop : fault = .open
+        · simp [hop] at hc
+        · simp only [hop, if_false] at hc
+          cases hf : fs'.find? (fun e => e.dir == d && e.name == n) with
+          | none => rw [hf] at hc; simp [hl] at hc
+          | some e =>
+            -- an entry of that name after `makedirs`: it was there before or is one of the new directories
+            have hmem := List.mem_of_find?_eq_some hf
+            have hp := List.find?_some hf
+            have hkey := mkdirs_new d fs [] e (by rw [hm]; exact hmem)
+            rcases hkey with hold | hdir
+            · have : fs.has d n = true := by
+                unfold Fs.has; rw [List.any_eq_true]; exact ⟨e, hold, hp⟩
+              rw [hfree] at this; cases this
+            · rw [hf] at hc
+              simp [hdir] at hc
 
 /-- **No refusal without reason** (so the theorems above are not vacuous: "raises" is not the way
 the code satisfies them). A chain that contains the default strategy chooses a path for every remote
@@ -103,9 +192,25 @@ example : (chain [] [.default, .number] ['.', '.', '\\', '.']).toOption = none :
 -- a chain that never names the file raises instead of returning ''
 example : (chain [] [.keepDir] ['a', '\\', 'b']).toOption = none := by decide
 -- two downloads of the same remote file, both active: different local paths
-example : ((run [.default, .number] { fs := [], active := [] }
-    [.start 1 ['a', '\\', 'x'], .start 2 ['b', '\\', 'x']]).active.map (·.name))
+example : ((run [.default, .number] { fs := [], dls := [] }
+    [.start 1 ['a', '\\', 'x'] .none, .start 2 ['b', '\\', 'x'] .none]).active.map (·.name))
     = [['x', ' ', '(', '1', ')'], ['x']] := by decide
+-- the claim of download 1 fails (EMFILE), download 2 takes the name, download 1 is started again:
+-- it holds nothing, chooses anew and gets the numbered name
+example : ((run [.default, .number] { fs := [], dls := [] }
+    [.start 1 ['x'] .open, .start 2 ['x'] .none, .start 1 ['x'] .none]).active.map (fun a => (a.id, a.name)))
+    = [(1, ['x', ' ', '(', '1', ')']), (2, ['x'])] := by decide
+-- a cut-off download resumes on its own path; a completed one chooses anew
+example : ((run [.default, .number] { fs := [], dls := [] }
+    [.start 1 ['x'] .none, .cut 1, .start 2 ['x'] .none, .finish 2, .start 1 ['x'] .none, .start 2 ['x'] .none]
+    ).active.map (fun a => (a.id, a.name)))
+    = [(2, ['x', ' ', '(', '2', ')']), (1, ['x'])] := by decide
+-- the final path string of a kept directory, and where it leads
+example : finalPath [['q']] ['x'] = some ['/', 'q', '/', 'x'] ∧ resolve ['/', 'q', '/', 'x'] = some [['q'], ['x']] := by
+  decide
+-- what `resolve` says about strings that the chain never produces
+example : resolve ['/', '.', '.', '/', 'x'] = none ∧ resolve ['/', 'q', '/', '.', '.', '/', 'x'] = some [['x']] ∧
+    finalPath [] ['/', 'e', 't', 'c'] = none := by decide
 end Examples
 
 end AioslskVerif.C09
